@@ -272,6 +272,26 @@ def run(ctx, res):
             res.fail("R-FRESH", inst, "R-FRESH|%s|record" % f_get.name, f_get.loc(s_),
                      "%s copies a frame out without recording its id as emitted: the next call returns it again" % f_get.name)
 
+    # ---- a stopped camera hands out no frame: the copy-out is not reachable
+    # with the running flag last seen false (within one hold of the lock) ----
+    flags = set()
+    for b_ in f_get.blocks.values():
+        c_ = b_.cond_node()
+        fl = paths._simple_flag(c_) if c_ is not None else None
+        if fl and "is_running" in fl[0]:
+            flags.add(fl[0])
+    if not flags:
+        raise AnalysisBroken("%s no longer tests the streamer's running flag" % f_get.name)
+    for bid, i, s_ in copies:
+        bad = [k for k in paths.knowledge_at(f_get, (bid, i)) if any(k.get(fl) is False for fl in flags)]
+        inst = "%s: no frame is copied out once the camera was seen stopped" % f_get.name
+        if not bad:
+            res.oblige("R-FRESH", inst, True, "the copy is unreachable with %s last read false" % sorted(flags)[0], f_get.loc(s_))
+        else:
+            res.fail("R-FRESH", inst, "R-FRESH|%s|stopped" % f_get.name, f_get.loc(s_),
+                     "%s can copy a frame out on a path on which it has just seen the camera stopped (%s false): the frame the stop sequence "
+                     "forces out of the streamer is delivered although no trigger asked for it" % (f_get.name, sorted(flags)[0]))
+
     # ---- R-RESTART -------------------------------------------------------
     res.touched(f_start)
     tcs = paths.calls_to(prog, f_start, {"thread_create"})
@@ -298,4 +318,4 @@ def run(ctx, res):
     res.require_min("R-STOP-WAKES", 3)
     res.require_min("R-TRIGGER-GATE", 2)
     res.require_min("R-RESTART", 2)
-    res.require_min("R-FRESH", 2)
+    res.require_min("R-FRESH", 3)
